@@ -12,6 +12,11 @@ def real_apply_exact(chain, x):
     return [sum(A[0][i][j] * x[j] for j in range(A[3])) + A[1][i] for i in range(A[2])]
 
 
+def random_from(x):
+    import random
+    return random.Random(int(x * 2**40))
+
+
 def outcome(f, *a):
     """run real code; exceptions are outcomes"""
     try:
@@ -413,7 +418,8 @@ class Streams:
                 if rng.random() < .4:
                     queries.append(('foreign', rng.choice(['iwt', 'index', 'contains']), self.foreign_chains(pool, ts, i)))
             if n == 0:
-                queries.append(('foreign', 'iwt', tuple(rng.choice(pool)[0]) if len(rng.choice(pool)) else ()))
+                other = rng.choice(pool)
+                if len(other): queries.append(('foreign', 'iwt', tuple(other[0])))
             key = (sseq, tuple(repr(q) for q in queries))
             if key in seen: continue
             seen.add(key)
@@ -504,15 +510,195 @@ class Streams:
         if op == 'index': return 'ok %d' % out[1]
         return 'ok %d' % out[1]
 
+    # -------------------------------------------------------------- stream E: compressed containers
+    def ref_label(self, ref):
+        from nutils import element
+        if isinstance(ref, element.TensorReference): return self.ref_label(ref.ref1) + self.ref_label(ref.ref2)
+        if isinstance(ref, element.SimplexReference): return (ref.ndims,) if ref.ndims else ()
+        raise Unsupported('reference ' + type(ref).__name__)
+
+    def gen_container_expr(self, nd, depth):
+        """random expression over the container operations producing a sequence of `nd`-dimensional items"""
+        rng = self.rng
+        atoms = {1: ['line'], 2: ['square', 'triangle'], 3: ['cube', 'tetrahedron', 'prism', 'linetri']}
+        kinds = dict(self.refs)
+        if depth == 0 or rng.random() < .25:
+            if rng.random() < .2:
+                return ('uniform', kinds[rng.choice(atoms[nd])], rng.randint(0, 3))
+            return ('fromiter', [kinds[rng.choice(atoms[nd])] for _ in range(rng.choice([0, 2, 3, 4, 5]))], nd)
+        op = rng.choice(['take', 'take', 'compress', 'repeat', 'chain', 'chain', 'product', 'children', 'edges'])
+        if op == 'product':
+            if nd < 2: op = 'chain'
+            else:
+                d1 = rng.randint(1, nd - 1)
+                return ('product', self.gen_container_expr(d1, depth - 1), self.gen_container_expr(nd - d1, depth - 1))
+        if op == 'edges':
+            if nd >= 3: op = 'children'
+            else: return ('edges', self.gen_container_expr(nd + 1, depth - 1))
+        if op == 'children': return ('children', self.gen_container_expr(nd, depth - 1))
+        if op == 'chain': return ('chain', self.gen_container_expr(nd, depth - 1), self.gen_container_expr(nd, depth - 1))
+        if op == 'repeat': return ('repeat', self.gen_container_expr(nd, depth - 1), rng.randint(0, 3))
+        return (op, self.gen_container_expr(nd, depth - 1), rng.random())   # indices chosen when the length is known
+
+    def eval_container(self, e, nd_hint=None):
+        """returns (real References, expected python list, request string, has_unsorted_take)"""
+        from nutils import elementseq
+        rng = self.rng
+        word = lambda r: ' '.join(['%d' % len(self.ref_label(r))] + ['%d' % a for a in self.ref_label(r)])
+        op = e[0]
+        if op == 'fromiter':
+            for r in e[1]: self.seen_refs.add(r)
+            return elementseq.References.from_iter(e[1], e[2]), list(e[1]), 'fromiter %d %s' % (len(e[1]), ' '.join(word(r) for r in e[1])), False
+        if op == 'uniform':
+            self.seen_refs.add(e[1])
+            return elementseq.References.uniform(e[1], e[2]), [e[1]] * e[2], 'uniform %s %d' % (word(e[1]), e[2]), False
+        if op in ('take', 'compress'):
+            s, L, q, u = self.eval_container(e[1])
+            n = len(L)
+            r = random_from(e[2])
+            if op == 'take':
+                idx = [r.randrange(n) for _ in range(r.randint(0, n + 1))] if n else []
+                mode = r.random()
+                if mode < .7: idx = sorted(idx)
+                unsorted = idx != sorted(idx)
+                return s.take(numpy.array(idx, dtype=int)), [L[i] for i in idx], 'take %s %d %s' % (q, len(idx), ' '.join(map(str, idx))), u or unsorted
+            mask = [r.random() < .6 for _ in range(n)]
+            return s.compress(numpy.array(mask, dtype=bool)), [x for x, m in zip(L, mask) if m], 'compress %s %d %s' % (q, n, ' '.join('%d' % m for m in mask)), u
+        if op == 'repeat':
+            s, L, q, u = self.eval_container(e[1])
+            return s.repeat(e[2]), L * e[2], 'repeat %s %d' % (q, e[2]), u
+        if op in ('chain', 'product'):
+            s1, L1, q1, u1 = self.eval_container(e[1]); s2, L2, q2, u2 = self.eval_container(e[2])
+            if op == 'chain': return s1.chain(s2), L1 + L2, 'chain %s %s' % (q1, q2), u1 or u2
+            L = [a * b for a in L1 for b in L2]
+            for r in L: self.seen_refs.add(r)
+            return s1.product(s2), L, 'product %s %s' % (q1, q2), u1 or u2
+        s, L, q, u = self.eval_container(e[1])
+        if op == 'children':
+            L2 = [c_ for r in L for c_ in r.child_refs]
+            for r in L2: self.seen_refs.add(r)
+            return s.children, L2, 'children ' + q, u
+        L2 = [c_ for r in L for c_ in r.edge_refs]
+        for r in L2: self.seen_refs.add(r)
+        return s.edges, L2, 'edges ' + q, u
+
+    def container_shape(self, s):
+        n = type(s).__name__.lstrip('_')
+        if n in ('Take', 'Repeat', 'Derived'): return '%s(%s)' % (n, self.container_shape(s.parent))
+        if n in ('Product', 'Chain'): return '%s(%s,%s)' % (n, self.container_shape(s.sequence1), self.container_shape(s.sequence2))
+        return n
+
     def containers(self):
-        pass
+        N = 120 if self.quick else 3000
+        for k in range(N):
+            nd = self.rng.choice([1, 2, 2, 3, 3])
+            e = self.gen_container_expr(nd, self.rng.randint(1, 4))
+            self.seen_refs = set()
+            try:
+                real, want, q, unsorted = self.eval_container(e)
+            except Unsupported:
+                continue
+            except Exception as ex:
+                self.c.count('container-gen-skipped:' + type(ex).__name__); continue
+            # der table for every reference met
+            closure = set(self.seen_refs)
+            for r in list(closure):
+                closure.update(r.child_refs)
+                if r.ndims: closure.update(r.edge_refs)
+            word = lambda r: ' '.join(['%d' % len(self.ref_label(r))] + ['%d' % a for a in self.ref_label(r)])
+            tab = {}
+            for r in closure:
+                tab[(0, self.ref_label(r))] = '0 %s %d %s' % (word(r), len(r.child_refs), ' '.join(word(c_) for c_ in r.child_refs))
+                er = r.edge_refs if r.ndims else ()
+                tab[(1, self.ref_label(r))] = '1 %s %d %s' % (word(r), len(er), ' '.join(word(c_) for c_ in er))
+            line = 'alg|%d %s|%s' % (len(tab), ' '.join(tab[k_] for k_ in sorted(tab)), q)
+            def h(ans, line, real=real, want=want, q=q, unsorted=unsorted):
+                ob = 'corr:containers'
+                self.tick(ob); self.c.case(('alg', q), nontrivial=len(want) > 0)
+                got = list(real)
+                gets = [real.get(i) for i in range(len(real))]
+                shape = self.container_shape(real)
+                self.c.count('container:' + shape.split('(')[0])
+                replay = dict(op='containers', expr=q, real_shape=shape, model=ans)
+                # specification oracle: the python lists
+                if got != want or gets != want or len(real) != len(want):
+                    if unsorted:
+                        self.fail(ob, 'container-take:chain-unsorted-indices', 'take with indices that are not sorted across a chain boundary returns the elements in the wrong order', replay)
+                    else:
+                        self.fail(ob, 'container-wrong-content', 'container expression evaluates to the wrong sequence (iteration, get or len)', replay)
+                    return
+                lab = lambda r: '.'.join('%d' % a for a in self.ref_label(r))
+                wl = ' '.join(lab(r) for r in want)
+                expect = '%s|%d|%s|%s' % (shape, len(want), wl, wl)
+                if ans != expect:
+                    self.disagree(ob, 'model and code disagree on a container expression', dict(replay, want=expect))
+            self.b.add(line, h)
+        self.points_containers()
+
+    def points_containers(self):
+        """PointsSequence has the same algebra: real code against python lists (coords / weights compared exactly)"""
+        from nutils import pointsseq, element
+        rng = self.rng
+        ob = 'explore:pointsseq-containers'
+        L = element.LineReference(); T = element.TriangleReference()
+        atoms = {1: [L.getpoints('gauss', 1), L.getpoints('gauss', 3), L.getpoints('bezier', 2)], 2: [T.getpoints('gauss', 1), T.getpoints('gauss', 2), (L*L).getpoints('gauss', 1)]}
+        def gen(nd, depth):
+            if depth == 0 or rng.random() < .25:
+                items = [rng.choice(atoms[nd]) for _ in range(rng.randint(0, 4))]
+                return pointsseq.PointsSequence.from_iter(items, nd), items, False
+            op = rng.choice(['take', 'compress', 'repeat', 'chain', 'chain', 'product'])
+            if op == 'product' and nd == 2:
+                s1, l1, u1 = gen(1, depth - 1); s2, l2, u2 = gen(1, depth - 1)
+                return s1.product(s2), [a * b for a in l1 for b in l2], u1 or u2
+            if op == 'chain' or op == 'product':
+                s1, l1, u1 = gen(nd, depth - 1); s2, l2, u2 = gen(nd, depth - 1)
+                return s1.chain(s2), l1 + l2, u1 or u2
+            s, l, u = gen(nd, depth - 1)
+            n = len(l)
+            if op == 'repeat':
+                k = rng.randint(0, 3); return s.repeat(k), l * k, u
+            if op == 'compress':
+                mask = [rng.random() < .6 for _ in range(n)]
+                return s.compress(numpy.array(mask, dtype=bool)), [x for x, m in zip(l, mask) if m], u
+            idx = [rng.randrange(n) for _ in range(rng.randint(0, n + 1))] if n else []
+            if rng.random() < .7: idx = sorted(idx)
+            return s.take(numpy.array(idx, dtype=int)), [l[i] for i in idx], u or idx != sorted(idx)
+        same = lambda p, q: p.npoints == q.npoints and numpy.array_equal(p.coords, q.coords) and numpy.array_equal(getattr(p, 'weights', 0), getattr(q, 'weights', 0))
+        for k in range(80 if self.quick else 2000):
+            try:
+                s, want, unsorted = gen(rng.choice([1, 2]), rng.randint(1, 4))
+            except Exception as ex:
+                self.c.count('pointsseq-gen-skipped:' + type(ex).__name__); continue
+            self.tick(ob); self.c.case(('pts', k, len(want)), nontrivial=len(want) > 0)
+            got = list(s); gets = [s.get(i) for i in range(len(s))]
+            ok = len(s) == len(want) == len(got) and all(same(a, b) for a, b in zip(got, want)) and all(same(a, b) for a, b in zip(gets, want)) and s.npoints == sum(p.npoints for p in want)
+            if not ok:
+                if unsorted: self.fail(ob, 'container-take:chain-unsorted-indices', 'PointsSequence: take with indices not sorted across a chain boundary returns the wrong order', dict(op='pointsseq', n=len(want)))
+                else: self.fail(ob, 'container-wrong-content', 'PointsSequence expression evaluates to the wrong sequence', dict(op='pointsseq', n=len(want), shape=type(s).__name__))
 
     def real_only(self):
         self.known_tensor4d()
+        self.known_chain_take()
         self.interning()
         self.findex_fcoords()
         self.interface_sides()
         self.locate()
+
+    def known_chain_take(self):
+        """References._Chain.take / PointsSequence._Chain.take with indices that are not sorted across the chain boundary"""
+        from nutils import element, elementseq
+        sig = 'container-take:chain-unsorted-indices'
+        L = element.LineReference(); T = element.TriangleReference(); S = L * L
+        c_ = elementseq.References.from_iter([S, T, S], 2).chain(elementseq.References.from_iter([T, T, S], 2))
+        idx = [5, 0, 4, 1]
+        got = list(c_.take(numpy.array(idx)))
+        still = got != [c_.get(i) for i in idx]
+        self.tick('explore:known-chain-take'); self.c.case(('known-chain-take',), nontrivial=True)
+        entry = self.c.match_known(sig)
+        if entry is not None:
+            self.c.report_known_still_failing(entry, still)
+        elif still:
+            self.c.failing_input(sig, 'References._Chain.take([5,0,4,1]) returns %r' % ([type(r).__name__ for r in got],), dict(op='known-chain-take', indices=idx))
 
     # -------------------------------------------------------------- stream R4: interning (lookup uses object identity)
     def interning(self):
